@@ -141,3 +141,6 @@ def gen_ops(rng, tier, ctx=None):
 
 def nontrivial(line):
     return line if line.startswith("mpz_") and len(line) > 24 else None
+
+# source pins: the C the Lean model mirrors (see tools/pins.py)
+PINS = [('mpz/mul.c', None), ('mpz/mul_i.h', None), ('mpz/aorsmul.c', None), ('mpz/aorsmul_i.c', None)]
